@@ -70,7 +70,7 @@ class RuleRenderer:
         if op == "var":
             return self.var(e["n"], env)
         if op == "lit":
-            return lit(e["v"], self.cmap)
+            return e["cname"] if "cname" in e and self.cmap == "int" else lit(e["v"], self.cmap)
         bin_ops = {"add": "+", "sub": "-", "mul": "*", "mod": "%", "lt": "<", "le": "<=", "gt": ">", "ge": ">=",
                    "eq": "==", "ne": "!=", "and": "&&", "or": "||"}
         if op in bin_ops:
@@ -158,7 +158,7 @@ class RuleRenderer:
                 if a["n"] not in env.d:
                     newly.append((a["n"], ty))
             elif k == "c":
-                out.append(lit(a["v"], self.cmap))
+                out.append(a["cname"] if "cname" in a and self.cmap == "int" else lit(a["v"], self.cmap))
             elif k == "w":
                 out.append("_")
             elif k == "e":
@@ -287,6 +287,12 @@ def render_decl(r, cmap="int", init=None):
     ds = f"#[ds({DS_PATH[r['ds']]})] " if r["ds"] != "-" else ""
     ini = f" = {init}" if init else ""
     return f"{ds}{kw} {r['name']}({cols}){ini};"
+
+
+def render_consts(prog, cmap="int"):
+    if cmap != "int":
+        return ""
+    return "".join(f"const {c['name']}: i32 = {c['v']};\n" for c in prog.get("consts", []))
 
 
 def render_program_items(prog, cmap="int", rule_order=None, decl_order=None):
